@@ -987,6 +987,9 @@ class Ev:
             rargs = [self.subst_ty(a, gmap) for a in c['rargs']]
             info['rargs'] = rargs
             if c.get('rlocal') and rpath in self.facts.fns and c.get('ikind') == 'item':
+                if self.facts.fns[rpath].get('kind') == 'Closure' and c.get('trait', '').startswith('std::ops::Fn') and len(args) == 2 and args[1][0] == 'tuple':
+                    # rust-call ABI: Fn*::call*(closure, (a, b, ..)) reaches the closure body with the tuple spread into its parameters
+                    args = [args[0]] + list(args[1][1])
                 return self.inline(rpath, rargs, args, st, fr, site)
             return self.std_call(rpath, info, args, st)
         if 'trait' in c:
